@@ -79,6 +79,8 @@ def scan_trusted(text):
             out.append(("external_body", n, s[:200]))
         elif re.search(r"\b(assume|admit)\s*\(", s):
             out.append(("assume/admit", n, s[:200]))
+        elif "exec_allows_no_decreases_clause" in s:
+            out.append(("termination-not-verified", n, s[:200]))
         elif "#[verifier::external" in s or "#[verifier(external" in s:
             out.append(("external", n, s[:200]))
     return out
